@@ -2,19 +2,22 @@
 from vlib import orch, harness
 
 ID = 'C07'
+CONTRACTS = True     # icontract recording contracts ride along (vlib/contracts.py)
 LEVEL = 'fault_enumeration'
 RULE = ('scenario = import graph (9 canonical + random, with cycles, self loops, alias and '
         'multi-module files) x per-source outcome per module (absent / ok / reader error / empty / '
         'comments / truncated / lexical / syntax / unresolved parent / duplicate symbol / '
         'codegen-only failure) x scripted parser, code generator, searcher, borrower, writer faults '
-        'x compile options; phase 1 enumerates every single-fault placement on the canonical graphs, '
+        'x compile options; plus source-free failpoints: a sys.monitoring LINE callback raises the '
+        'component\'s package error at a random executed line inside pysmi/{codegen,parser,lexer,'
+        'searcher,borrower} during compiles with the real components; phase 1 enumerates every single-fault placement on the canonical graphs, '
         'phase 2 draws random multi-fault scenarios; non-trivial = >=1 injected fault and >=2 '
         'modules; distinct = hash of the scenario')
 ASSUMPTIONS = ['component doubles raise only the package\'s own exception classes',
                'text defects are limited to the lexical / syntactic / semantic kinds the property names',
                'faults are never injected inside compiler.py itself']
 
-SINGLE_FAULTS = [('source', f) for f in orch.TEXT_FAULTS + ('ghost', 'absent')] + \
+SINGLE_FAULTS = [('source', f) for f in orch.TEXT_FAULTS + ('ghost', 'ghostdefval', 'absent')] + \
     [('source_error', k) for k in ('reader', 'generic')] + \
     [('parser', 'parser'), ('parser', 'lexer'), ('codegen', 'codegen'), ('codegen', 'semantic'),
      ('writer', 'error'), ('searcher', 'error'), ('none', None)]
@@ -47,9 +50,9 @@ def plan(tier, seed):
         _ENUM = enumerated()
     if tier == 'quick':
         return {'n': len(_ENUM) // 2 + 3000, 'budget_s': 45, 'min_evals': 2000,
-                'floors': {'faults_injected': 1500, 'putData_seen': 1000}}
+                'floors': {'faults_injected': 1500, 'putData_seen': 1000, 'failpoints_fired': 1500}}
     return {'n': len(_ENUM) + 60000, 'budget_s': 600, 'min_evals': 20000,
-            'floors': {'faults_injected': 20000, 'putData_seen': 10000}}
+            'floors': {'faults_injected': 20000, 'putData_seen': 10000, 'failpoints_fired': 50000}}
 
 
 def build_enumerated(case, rng):
@@ -113,7 +116,7 @@ def build_random(rng, tier):
             if ns > 1 and r < 0.35:
                 scn['sources'][si][m] = 'absent'
             elif r < 0.5:
-                stage, k = rng.choice(SINGLE_FAULTS[:12])
+                stage, k = rng.choice(SINGLE_FAULTS[:13])
                 apply_fault(scn, m, stage, k, si)
     for m in mods:
         r = rng.random()
@@ -138,11 +141,117 @@ def build_random(rng, tier):
     scn['options'] = dict((k, True) for k in orch.OPTION_NAMES[:5] if rng.random() < 0.25)
     if rng.random() < 0.15:
         scn['options']['writeMibs'] = False
+    # SMIv1 style dependencies (all their symbols are rewritten to SMIv2 homes): still part of the
+    # closure - when no source holds them they are missing and count as a failure
+    if rng.random() < 0.2:
+        scn['base_extra'] = [b for b in sorted(orch.V1_BASE) if rng.random() < 0.6]
+        for m in mods:
+            if rng.random() < 0.4:
+                scn['graph'][m] = scn['graph'][m] + rng.sample(sorted(orch.V1_BASE), rng.randint(1, 2))
     return scn, gname
+
+
+def build_partial_multi(rng):
+    """stress: one file holds a healthy requested module followed by a module with a semantic defect"""
+    mods = ['AA-MIB', 'EE-MIB', 'BB-MIB']
+    scn = orch.new_scenario(mods, {'AA-MIB': ['BB-MIB']}, ['AA-MIB'])
+    scn['files']['AA-MIB'] = ['AA-MIB', 'EE-MIB']
+    scn['sources'][0].pop('EE-MIB')
+    scn['extra_variant'] = {'EE-MIB': rng.choice(['dupsym', 'unresolved'])}
+    scn['options'] = {'ignoreErrors': True} if rng.random() < 0.7 else {}
+    return scn, 'partial_multi_file'
+
+
+def case_failpoints(idx, rng, tier, res):
+    """real components, one package error raised at a random executed line inside a component"""
+    from vlib import failpoints
+    gname = rng.choice(['chain2', 'chain3', 'diamond', 'star', 'cycle2'])
+    mods, g = orch.GRAPHS[gname]
+    scn = orch.new_scenario(mods, g, [mods[0]])
+    scn['options'] = dict(rng.choice(OPTION_SETS_QUICK[:4]))
+    if rng.random() < 0.5:
+        add_borrowers(scn, rng)
+    fp = failpoints.LineFailpoints()
+    holder = {'target': None}
+    backend = rng.choice(['json', 'pysnmp'])
+
+    def go():
+        # the failpoint is armed around compile() only, never while components are being built
+        holder['run'] = orch.execute(scn, codegen=backend, around=lambda call: fp.run(call, holder['target']))
+    go()
+    total = fp.count
+    res.count('failpoint_lines_available', total)
+    nsamples = 10 if tier == 'quick' else 30
+    done = 0
+    for _ in range(nsamples):
+        k = rng.randrange(total)
+        holder['target'] = k
+        go()
+        if fp.hit is None:
+            continue
+        done += 1
+        run = holder['run']
+        res.count('failpoints_fired')
+        res.cell('failpoint:' + fp.hit[0].split('/')[1])
+        hit = '%s:%d %s' % fp.hit
+
+        def V(monitor, detail, **features):
+            res.violation('failpoint_' + monitor, 'package error raised at %s: %s' % (hit, detail),
+                          replay={'scenario': scn, 'line_event': k, 'site': hit}, site=fp.hit[0], **features)
+        if 'exception' in run:
+            exc = run['exception']
+            V('I1_exception_escaped', 'compile() raised %s: %s' % (type(exc).__name__, str(exc)[:200]),
+              exc=type(exc).__name__)
+            continue
+        result = run['result']
+        tr = run['trace']
+        for r in scn['requested']:
+            if r not in result:
+                V('I2_requested_unaccounted', '%s absent from %r' % (r, dict((a, str(b)) for a, b in result.items())))
+        for kk, v in result.items():
+            if str(v) not in orch.STATUSES:
+                V('I2_unknown_status', '%s -> %r' % (kk, v))
+            if v == 'failed':
+                from pysmi import error as perr
+                if not isinstance(getattr(v, 'error', None), perr.PySmiError):
+                    V('I6_failed_without_error', '%s failed, .error is %r' % (kk, getattr(v, 'error', None)))
+        puts = {}
+        for e in tr.select('writer', 'putData', 'call'):
+            puts[e['name']] = puts.get(e['name'], 0) + 1
+        if any(n > 1 for n in puts.values()):
+            V('I3_written_twice', repr(puts))
+        ok_puts = set(e['name'] for e in tr.select('writer', 'putData', 'ret'))
+        if scn['options'].get('writeMibs', True):
+            for kk, v in result.items():
+                if v in ('compiled', 'borrowed') and kk not in ok_puts:
+                    V('I4_status_without_write', '%s reported %s, never written' % (kk, v))
+            for kk in ok_puts:
+                if result.get(kk) not in ('compiled', 'borrowed'):
+                    V('I4_write_without_status', '%s written, reported %r' % (kk, str(result.get(kk))))
+        bad = [kk for kk, v in result.items() if v in ('failed', 'missing')]
+        if bad and not scn['options'].get('ignoreErrors') and puts:
+            V('C09_written_despite_failure', 'failures %s, written %s' % (bad, sorted(puts)))
+    res.evals = done + 1
+    res.sig = harness.stable_hash(['fp', scn])
+    res.nontrivial = done > 0
 
 
 def run_case(idx, rng, tier, res):
     plan(tier, 0)
+    if idx % 13 == 12:
+        return case_failpoints(idx, rng, tier, res)
+    if idx % 97 == 96:
+        scn, gname = build_partial_multi(rng)
+        run = orch.execute(scn)
+
+        def Vs(monitor, detail, **features):
+            if monitor == 'I7_module_dropped':
+                return      # the reference model does not describe the broken second module
+            res.violation(monitor, detail, replay=scn, partial_multi_file=True, **features)
+        orch.check_accounting(scn, run, Vs, compare_model=False)
+        res.count('stress_partial_multi_file')
+        res.sig = harness.stable_hash(scn)
+        return
     stride = 2 if tier == 'quick' else 1
     if idx * stride < len(_ENUM) and (tier != 'quick' or idx < len(_ENUM) // 2):
         scn, gname = build_enumerated(_ENUM[(idx * stride + (rng.random() < 0.5 and stride - 1 or 0))
